@@ -31,10 +31,15 @@ package env
 //@   loop range m: invariant [visited] forall k string :: visited[k] ==> has(m, k)
 //@   loop range m: invariant [values] forall k string :: has(res, k) ==> res[k] == m[k]
 
+// a reserved variable enters its layer exactly when it is set in the process environment, whatever its value (also empty)
 //@ func lookupEnv
 //@   modifies nothing
 //@   ensures [fresh] r0 != nil && fresh(r0)
+//@   ensures [exactly-the-variables-that-are-set] forall k string :: has(r0, k) <==> (has(keys, k) && osEnvSet(k))
+//@   ensures [with-their-values] forall k string :: has(r0, k) ==> r0[k] == osEnvVal(k)
 //@   loop range keys: invariant fresh(res) && res != nil
+//@   loop range keys: invariant forall k string :: has(res, k) <==> (visited[k] && osEnvSet(k))
+//@   loop range keys: invariant forall k string :: (visited[k] ==> has(keys, k)) && (has(res, k) ==> res[k] == osEnvVal(k))
 
 //@ func extensionExcludedKeys
 //@   modifies nothing
